@@ -384,6 +384,19 @@ func (c *Ctx) RuleSuffixOps() *Result {
 				return
 			}
 			switch f.Name() {
+			case "Cut", "CutPrefix", "Index", "Contains", "SplitN", "Split", "Replace", "ReplaceAll", "TrimPrefix":
+				// a pair key (an element of the sorted key list or a map key) matched anywhere but at the end of the entry
+				if len(call.Call.Args) < 2 || fn.Name() != "replaceSuffixes" && !inLoopOverStrings(call) {
+					return
+				}
+				if _, isC := constString(call.Call.Args[1]); isC {
+					return
+				}
+				if !inLoopOverStrings(call) {
+					return
+				}
+				res.Instances++
+				res.bad(fnName+":strings."+f.Name()+" with a pair key", c.P.InstrPos(call), "the key of a suffix pair is looked for with strings."+f.Name()+", which finds it anywhere in the entry (or at its start): an entry that merely contains the key is cut short or rewritten, although only entries that END in the key may change")
 			case "Trim", "TrimLeft", "TrimRight":
 				res.Instances++
 				key := fnName + ":strings." + f.Name() + " cutset"
@@ -559,6 +572,29 @@ func (c *Ctx) RuleSuffixOps() *Result {
 		}
 	}
 	return res
+}
+
+// inLoopOverStrings: the call sits in a loop that walks a []string (the sorted keys) or a map with string keys,
+// and its second argument is the element of that walk.
+func inLoopOverStrings(call *ssa.Call) bool {
+	if len(call.Call.Args) < 2 {
+		return false
+	}
+	key := stripConv(call.Call.Args[1])
+	switch x := key.(type) {
+	case *ssa.UnOp: // element of a slice: *(&keys[i])
+		if ia, ok := x.X.(*ssa.IndexAddr); ok {
+			if sl, ok := ia.X.Type().Underlying().(*types.Slice); ok {
+				return sl.Elem().Underlying().String() == "string"
+			}
+		}
+	case *ssa.Extract: // key of a map range
+		if nx, ok := x.Tuple.(*ssa.Next); ok && x.Index == 1 {
+			_ = nx
+			return true
+		}
+	}
+	return false
 }
 
 // loopDeletes: the loop body deletes map entries (itself, in a closure it creates, or in a function it calls).
@@ -2077,10 +2113,42 @@ func (c *Ctx) RuleWalkFilter(commands ...string) *Result {
 					stack = append(stack, n)
 				}
 			}
+			// and the other way round: with a name policy, an entry is processed only after one of its name tests passed
+			if bad == "" && len(policy) > 0 {
+				passed := func(cond ssa.Value, val bool) bool {
+					for _, p := range policy {
+						if extPred(p)(cond, val) {
+							return true
+						}
+					}
+					return suffixPred(policy)(cond, val)
+				}
+				for _, b := range cb.Blocks {
+					if !isProcessing(b) {
+						continue
+					}
+					var first ssa.Instruction
+					for _, in := range b.Instrs {
+						if cc := callCommon(in); cc != nil {
+							if sf := staticFn(cc); sf != nil && c.P.IsRepoFn(sf) && load.ShortPkg(load.FnPkgPath(sf)) != "logger" {
+								// a call that is handed the walked path or entry
+								for _, a := range cc.Args {
+									if _, isParam := a.(*ssa.Parameter); isParam {
+										first = in
+									}
+								}
+							}
+						}
+					}
+					if first != nil && !c.guardedByEdges(first, passed) {
+						bad = fmt.Sprintf("the entry is processed at %s without having passed a name test of the command (%s): files of other kinds below the directory are read as if they were targets", c.P.InstrPos(first), strings.Join(policy, ", "))
+					}
+				}
+			}
 			if bad != "" {
 				res.bad(key, c.P.FnPos(cb), bad)
 			} else {
-				res.ok(key, c.P.FnPos(cb), "an entry is skipped only when it is a directory, the walk failed, a pattern did not match or every name test of the policy failed")
+				res.ok(key, c.P.FnPos(cb), "an entry is skipped only when it is a directory, the walk failed, a pattern did not match or every name test of the policy failed; it is processed only after a name test passed")
 			}
 		}
 	}
